@@ -53,11 +53,20 @@ def gen_data(rng, tier):
         params = []; tp = None
     localnames = params + ['v%d' % i for i in range(nlocals)]
     first = rng.choice([1, 1000, 100000])
-    lines_mode = rng.choice(['same', 'inc', 'wild', 'wild', 'none-mix'] if V310 else ['same', 'inc', 'wild', 'wild'])
+    lines_mode = rng.choice(['same', 'inc', 'wild', 'wild', 'runs', 'none-mix'] if V310 else ['same', 'inc', 'wild', 'wild', 'runs'])
     cur = [first + rng.randrange(0, 3)]
+    run = [0]
 
     def line():
         if lines_mode == 'same': return cur[0]
+        if lines_mode == 'runs':
+            # long stretches of bytecode on one line, then a line jump: rows that need BOTH the address split (> 255 / 254
+            # bytes) and the line split (beyond +-127/128) - seeded change C03-r7 / C10-r7
+            if run[0] <= 0:
+                run[0] = rng.choice([1, 2, 100, 127, 128, 129, 130, 200, 255, 256, 300])
+                cur[0] = max(1, cur[0] + rng.choice([1, -1, 127, 128, 129, -128, -129, -130, 200, -200, 300, 1000, -1000]))
+            run[0] -= 1
+            return cur[0]
         if lines_mode == 'inc':
             cur[0] += rng.choice([0, 0, 1, 1, 2]); return cur[0]
         if lines_mode == 'none-mix' and rng.random() < .4: return None
@@ -66,7 +75,7 @@ def gen_data(rng, tier):
 
     blocks = []
     for b in range(nblocks):
-        n = rng.choice([1, 1, 2, 3, 5]) if not big else rng.choice([1, 2, 3, 60, 126, 127, 128, 129, 254, 255, 256, 257])
+        n = rng.choice([1, 1, 2, 3, 5]) if not (big or lines_mode == 'runs') else rng.choice([1, 2, 3, 60, 126, 127, 128, 129, 254, 255, 256, 257])
         ins = []
         for _ in range(n):
             k = rng.randrange(10)
